@@ -10,6 +10,7 @@ K_Tokens == {"a", " ", "%", "?", "#", "|", "+", "&", "\"", "^", ":", "..", "%41"
 K_Shapes == {"wapiti", "a b 1", "GEMINI-QUERYx", "URL:a"}
 K_InnerTokens == {"a", " ", "%", "?", "|", "^", "wap", "URL:a", "a b 1", "x:y"}
 K_Kinds2 == {"file"}
+K_DeepNames == {"{{"}
 K_Views == {"G", "GP", "GD", "SG", "H", "HS", "W", "M", "S"}
 K_HLs == {"default", "full"}
 \* MC_C06
@@ -17,9 +18,10 @@ K_LocalNames == {"a", "a b", "%", "?", "#", "|", "+", "&", "\"", "^", "%41", "a:
 K_RemoteSels == {"/r", "/r s", "r", ""}
 K_Hosts == {"", "other.example", "localhost"}
 K_UrlSels == {"URL:http://h.example/p?q=1&r", "/URL:http://h.example/"}
-K_SearchTokens == {"a", " ", "+", "%", "&", "=", "?", "#", "^", "%41"}
+K_SearchTokens == {"a", " ", "1", "+", "%", "&", "=", "?", "#", "^", "%41"}
 K_Kinds6 == {"file", "dir", "mbox", "maildir", "mapdir", "zip"}
 K_Inner6 == {"a b", "^", "?"}
 K_SearchSels == {"/echo.pyg", "/echo.pyg?arg", "/e#.pyg", "/e%41.pyg", "/e^.pyg", "/e b.pyg"}
+K_SearchShapes == {"a 1", "a b 1", "/zz 0", "x HTTP/1.0", "GET /zz HTTP/1.0", "gemini://localhost/zz", "{{{{{{{{{{{{{{"}
 K_Views6 == {"G", "GP", "GD", "SG", "SGP", "SGD", "H", "HS", "W", "M", "S"}
 =============================================================================
